@@ -461,6 +461,265 @@ theorem vec_row_slot_collision :
     vecRowWitness.rankOf 0 = vecRowWitness.rankOf 1 ∧ vecRowWitness.position 0 = vecRowWitness.position 1 ∧
     (0 : Nat) < vecRowWitness.t.mt ∧ 1 < vecRowWitness.t.mt := by decide
 
+/-! ## k-cyclic view -/
+
+structure KVWF (v : KV) : Prop where
+  o : BCWF v.o
+  vp : 0 < v.vp
+  vq : 0 < v.vq
+
+/-- **The view stays in the window**: `kview_compute_m/n` terminate (within `p*ps` rounds) with an
+    index of the window, so the origin's accessors are called on a tile of the window and every
+    theorem of the 2D block-cyclic section applies to `(sm, sn)`. -/
+theorem kview_in_window (v : KV) (h : KVWF v) (m n : Nat) (hm : m < v.o.t.mt) (hn : n < v.o.t.nt) :
+    ∃ sm sn, v.sm m = some sm ∧ v.sn n = some sn ∧ sm < v.o.t.mt ∧ sn < v.o.t.nt := by
+  obtain ⟨sm, h1, h2⟩ := kviewCompute_total v.o.g.P v.vp v.o.t.mt m h.o.g.P h.vp hm
+  obtain ⟨sn, h3, h4⟩ := kviewCompute_total v.o.g.Q v.vq v.o.t.nt n h.o.g.Q h.vq hn
+  exact ⟨sm, sn, h1, h3, h2, h4⟩
+
+/-- **The view is one-to-one**: two tiles of the view that are mapped to the same origin tile are the
+    same tile (with `kview_in_window` and finiteness: the view permutes the tiles of the window). -/
+theorem kview_injective (v : KV) (h : KVWF v) (m n m' n' sm sn : Nat)
+    (hm : m < v.o.t.mt) (hn : n < v.o.t.nt) (hm' : m' < v.o.t.mt) (hn' : n' < v.o.t.nt)
+    (e1 : v.sm m = some sm) (e2 : v.sn n = some sn) (e1' : v.sm m' = some sm) (e2' : v.sn n' = some sn) :
+    m = m' ∧ n = n' :=
+  ⟨kviewCompute_inj _ _ _ _ _ _ h.o.g.P h.vp hm hm' e1 e1',
+   kviewCompute_inj _ _ _ _ _ _ h.o.g.Q h.vq hn hn' e2 e2'⟩
+
+/-- consequently: two different tiles of the view that are local to one rank use different slots -/
+theorem kview_slot_injective (v : KV) (h : KVWF v) (rank m n m' n' sm sn sm' sn' : Nat)
+    (hm : m < v.o.t.mt) (hn : n < v.o.t.nt) (hm' : m' < v.o.t.mt) (hn' : n' < v.o.t.nt)
+    (e1 : v.sm m = some sm) (e2 : v.sn n = some sn) (e1' : v.sm m' = some sm') (e2' : v.sn n' = some sn')
+    (hl : v.o.isLocal rank sm sn) (hl' : v.o.isLocal rank sm' sn')
+    (hp : v.o.position rank sm sn = v.o.position rank sm' sn') : m = m' ∧ n = n' := by
+  obtain ⟨a, b, ha, hb, hlt1, hlt2⟩ := kview_in_window v h m n hm hn
+  obtain ⟨a', b', ha', hb', hlt1', hlt2'⟩ := kview_in_window v h m' n' hm' hn'
+  rw [e1] at ha; rw [e2] at hb; rw [e1'] at ha'; rw [e2'] at hb'
+  injection ha with ha; injection hb with hb; injection ha' with ha'; injection hb' with hb'
+  subst ha hb ha' hb'
+  have := slot_injective v.o h.o rank _ _ _ _ hlt1 hlt2 hlt1' hlt2' hl hl' hp
+  rw [this.1] at e1; rw [this.2] at e2
+  exact kview_injective v h m n m' n' _ _ hm hn hm' hn' e1 e2 e1' e2'
+
+/-! ## symmetric (one triangle stored, square tile grid) -/
+
+structure SymWF (s : Sym) : Prop where
+  t : s.t.WF
+  P : 0 < s.P
+  Q : 0 < s.Q
+  /-- symmetric matrices are square in tiles -/
+  sq : s.t.lmt = s.t.lnt
+
+/-- the locality assertions of `sym_twoDBC_vpid_of` in the view of `rank` -/
+def symLocal (s : Sym) (rank m n : Nat) : Prop :=
+  s.gm m % s.P = s.rrank rank ∧ s.gn n % s.Q = s.crank rank
+instance (s : Sym) (rank m n : Nat) : Decidable (symLocal s rank m n) := by unfold symLocal; exact inferInstance
+
+theorem sym_rrank (s : Sym) (_h : SymWF s) (rank : Nat) (hr : rank < s.P * s.Q) : s.rrank rank = rank / s.Q := by
+  unfold Sym.rrank Sym.grid Grid.rrank
+  simp only [Nat.sub_zero, Nat.add_mod_right]
+  exact Nat.mod_eq_of_lt (rank_div_lt _ _ _ hr)
+
+theorem sym_crank (s : Sym) (rank : Nat) : s.crank rank = rank % s.Q := by
+  unfold Sym.crank Sym.grid Grid.crank
+  simp only [Nat.sub_zero, Nat.add_mod_right, Nat.mod_mod]
+
+theorem sym_owner_in_range (s : Sym) (h : SymWF s) (m n : Nat) (hst : s.stored m n) : s.rankOf m n < s.P * s.Q := by
+  unfold Sym.rankOf
+  rw [if_pos hst]
+  exact pair_lt _ _ _ _ (Nat.mod_lt _ h.P) (Nat.mod_lt _ h.Q)
+
+/-- a stored tile is local to exactly its owner -/
+theorem sym_local_iff_owner (s : Sym) (h : SymWF s) (rank m n : Nat) (hr : rank < s.P * s.Q) (hst : s.stored m n) :
+    symLocal s rank m n ↔ s.rankOf m n = rank := by
+  unfold symLocal Sym.rankOf
+  rw [if_pos hst, sym_rrank s h rank hr, sym_crank, rank_split _ _ _ _ h.Q (Nat.mod_lt _ h.Q)]
+  constructor
+  · intro x; exact ⟨x.1.symm, x.2.symm⟩
+  · intro x; exact ⟨x.1.symm, x.2.symm⟩
+
+theorem lowPrefix_at (P Q r L gn c : Nat) (hP : 0 < P) (hr : r < P) (hQ : 0 < Q) (hc : gn % Q = c) (hL : gn ≤ L) :
+    Sym.lowPrefix P Q r L gn (gn + 1) c = some ((lowSum P Q r L (gn / Q) c : Nat) : Int) := by
+  have e : c + (gn / Q) * Q = gn := by
+    have := Nat.mod_add_div gn Q; rw [Nat.mul_comm] at this; omega
+  have := lowPrefix_eq P Q r L hP hr hQ (gn / Q) (gn + 1) c
+    (by have := Nat.div_le_self gn Q; omega) (by omega)
+  rw [e] at this; exact this
+
+theorem upPrefix_at (P Q r gn c : Nat) (hQ : 0 < Q) (hc : gn % Q = c) :
+    Sym.upPrefix P Q r gn (gn + 1) c = some (upSum P Q r (gn / Q) c) := by
+  have e : c + (gn / Q) * Q = gn := by
+    have := Nat.mod_add_div gn Q; rw [Nat.mul_comm] at this; omega
+  have := upPrefix_eq P Q r hQ (gn / Q) (gn + 1) c (by have := Nat.div_le_self gn Q; omega)
+  rw [e] at this; exact this
+
+theorem prefix_contra (St St1 St' off off' cnt : Nat) (s1 : St1 = St + cnt) (o1 : off < cnt)
+    (le : St1 ≤ St') (hp : St + off = St' + off') : False := by omega
+
+theorem col_of (Q gn c : Nat) (hc : gn % Q = c) : c + (gn / Q) * Q = gn := by
+  have := Nat.mod_add_div gn Q; rw [Nat.mul_comm] at this; omega
+
+/-- the LOWER position of a local stored tile, in closed form -/
+theorem sym_lower_position (s : Sym) (h : SymWF s) (hl : s.upper = false) (rank m n : Nat)
+    (hm : m < s.t.mt) (hst : s.stored m n) (hloc : symLocal s rank m n) :
+    s.position rank m n = some (((lowSum s.P s.Q (s.rrank rank) s.t.lmt (s.gn n / s.Q) (s.crank rank)
+      + (s.gm m - s.gn n) / s.P : Nat)) : Int) := by
+  have hgm : s.gm m < s.t.lmt := s.t.gm_lt h.t m hm
+  unfold Sym.stored at hst
+  rw [hl] at hst
+  simp only [Bool.false_eq_true, if_false] at hst
+  have hrr : s.rrank rank < s.P := Nat.mod_lt _ h.P
+  unfold Sym.position Sym.coord2pos
+  rw [hl]
+  simp only [Bool.false_eq_true, if_false]
+  rw [lowPrefix_at _ _ _ _ _ _ h.P hrr h.Q hloc.2 (by omega)]
+  simp only [Option.map_some]
+  congr 1
+
+/-- **symmetric, LOWER: slot in range** -/
+theorem sym_lower_slot_in_range (s : Sym) (h : SymWF s) (hl : s.upper = false) (rank m n : Nat)
+    (hm : m < s.t.mt) (hst : s.stored m n) (hloc : symLocal s rank m n) :
+    ∃ p : Nat, s.position rank m n = some (p : Int) ∧ (p : Int) < s.nbLocal rank := by
+  refine ⟨_, sym_lower_position s h hl rank m n hm hst hloc, ?_⟩
+  have hgm : s.gm m < s.t.lmt := s.t.gm_lt h.t m hm
+  have hst' := hst
+  unfold Sym.stored at hst'
+  rw [hl] at hst'
+  simp only [Bool.false_eq_true, if_false] at hst'
+  have hrr : s.rrank rank < s.P := Nat.mod_lt _ h.P
+  unfold Sym.nbLocal
+  rw [hl]
+  simp only [Bool.false_eq_true, if_false]
+  rw [← h.sq]
+  have e := col_of s.Q (s.gn n) (s.crank rank) hloc.2
+  have hdl : s.gn n / s.Q ≤ s.gn n := Nat.div_le_self _ _
+  have h1 := lowTotal_ge s.P s.Q (s.rrank rank) s.t.lmt h.P hrr (s.gn n / s.Q) (s.t.lmt + 1) (s.crank rank)
+    (by omega) (by omega)
+  have h2 := lowSum_succ_end s.P s.Q (s.rrank rank) s.t.lmt (s.gn n / s.Q) (s.crank rank)
+  rw [e] at h2
+  have h3 := low_off_lt s.P (s.rrank rank) s.t.lmt (s.gm m) (s.gn n) h.P hrr hloc.1 hst' hgm
+  omega
+
+/-- **symmetric, LOWER: slots are injective** -/
+theorem sym_lower_slot_injective (s : Sym) (h : SymWF s) (hl : s.upper = false) (rank m n m' n' : Nat)
+    (hm : m < s.t.mt) (hm' : m' < s.t.mt) (hst : s.stored m n) (hst' : s.stored m' n')
+    (hloc : symLocal s rank m n) (hloc' : symLocal s rank m' n')
+    (hp : s.position rank m n = s.position rank m' n') : m = m' ∧ n = n' := by
+  rw [sym_lower_position s h hl rank m n hm hst hloc, sym_lower_position s h hl rank m' n' hm' hst' hloc'] at hp
+  have hp' : lowSum s.P s.Q (s.rrank rank) s.t.lmt (s.gn n / s.Q) (s.crank rank) + (s.gm m - s.gn n) / s.P
+      = lowSum s.P s.Q (s.rrank rank) s.t.lmt (s.gn n' / s.Q) (s.crank rank) + (s.gm m' - s.gn n') / s.P := by
+    injection hp with hp; exact Int.ofNat.inj hp
+  have hgm : s.gm m < s.t.lmt := s.t.gm_lt h.t m hm
+  have hgm' : s.gm m' < s.t.lmt := s.t.gm_lt h.t m' hm'
+  unfold Sym.stored at hst hst'
+  rw [hl] at hst hst'
+  simp only [Bool.false_eq_true, if_false] at hst hst'
+  have hrr : s.rrank rank < s.P := Nat.mod_lt _ h.P
+  have e := col_of s.Q (s.gn n) (s.crank rank) hloc.2
+  have e' := col_of s.Q (s.gn n') (s.crank rank) hloc'.2
+  have o1 := low_off_lt s.P (s.rrank rank) s.t.lmt (s.gm m) (s.gn n) h.P hrr hloc.1 hst hgm
+  have o2 := low_off_lt s.P (s.rrank rank) s.t.lmt (s.gm m') (s.gn n') h.P hrr hloc'.1 hst' hgm'
+  have s1 := lowSum_succ_end s.P s.Q (s.rrank rank) s.t.lmt (s.gn n / s.Q) (s.crank rank)
+  have s2 := lowSum_succ_end s.P s.Q (s.rrank rank) s.t.lmt (s.gn n' / s.Q) (s.crank rank)
+  rw [e] at s1
+  rw [e'] at s2
+  rcases Nat.lt_trichotomy (s.gn n / s.Q) (s.gn n' / s.Q) with hlt | heq | hgt
+  · have := lowSum_le s.P s.Q (s.rrank rank) s.t.lmt (s.gn n / s.Q + 1) (s.gn n' / s.Q - (s.gn n / s.Q + 1)) (s.crank rank)
+    rw [Nat.add_sub_cancel' (by omega)] at this
+    exact (prefix_contra _ _ _ _ _ _ s1 (by omega) this hp').elim
+  · rw [heq] at e
+    have hn : s.gn n = s.gn n' := by omega
+    rw [heq, hn] at hp'
+    have := same_col_inj s.P (s.gn n') (s.gm m) (s.gm m') h.P (by omega) hst'
+      (hloc.1.trans hloc'.1.symm) (by omega)
+    unfold Sym.gm at this
+    unfold Sym.gn at hn
+    omega
+  · have := lowSum_le s.P s.Q (s.rrank rank) s.t.lmt (s.gn n' / s.Q + 1) (s.gn n / s.Q - (s.gn n' / s.Q + 1)) (s.crank rank)
+    rw [Nat.add_sub_cancel' (by omega)] at this
+    exact (prefix_contra _ _ _ _ _ _ s2 (by omega) this hp'.symm).elim
+
+/-- the UPPER position of a local stored tile, in closed form -/
+theorem sym_upper_position (s : Sym) (h : SymWF s) (hu : s.upper = true) (rank m n : Nat)
+    (hloc : symLocal s rank m n) :
+    s.position rank m n = some (((upSum s.P s.Q (s.rrank rank) (s.gn n / s.Q) (s.crank rank) + s.gm m / s.P : Nat)) : Int) := by
+  unfold Sym.position Sym.coord2pos
+  rw [hu]
+  simp only [if_true]
+  rw [upPrefix_at _ _ _ _ _ h.Q hloc.2]
+  simp only [Option.map_some]
+
+/-- **symmetric, UPPER: slots are injective** -/
+theorem sym_upper_slot_injective (s : Sym) (h : SymWF s) (hu : s.upper = true) (rank m n m' n' : Nat)
+    (hst : s.stored m n) (hst' : s.stored m' n')
+    (hloc : symLocal s rank m n) (hloc' : symLocal s rank m' n')
+    (hp : s.position rank m n = s.position rank m' n') : m = m' ∧ n = n' := by
+  rw [sym_upper_position s h hu rank m n hloc, sym_upper_position s h hu rank m' n' hloc'] at hp
+  have hp' : upSum s.P s.Q (s.rrank rank) (s.gn n / s.Q) (s.crank rank) + s.gm m / s.P
+      = upSum s.P s.Q (s.rrank rank) (s.gn n' / s.Q) (s.crank rank) + s.gm m' / s.P := by
+    injection hp with hp; exact Int.ofNat.inj hp
+  unfold Sym.stored at hst hst'
+  rw [hu] at hst hst'
+  simp only [if_true] at hst hst'
+  have hrr : s.rrank rank < s.P := Nat.mod_lt _ h.P
+  have e := col_of s.Q (s.gn n) (s.crank rank) hloc.2
+  have e' := col_of s.Q (s.gn n') (s.crank rank) hloc'.2
+  have o1 := up_off_lt s.P (s.rrank rank) (s.gm m) (s.gn n) h.P hrr hloc.1 hst
+  have o2 := up_off_lt s.P (s.rrank rank) (s.gm m') (s.gn n') h.P hrr hloc'.1 hst'
+  have s1 := upSum_succ_end s.P s.Q (s.rrank rank) (s.gn n / s.Q) (s.crank rank)
+  have s2 := upSum_succ_end s.P s.Q (s.rrank rank) (s.gn n' / s.Q) (s.crank rank)
+  rw [e] at s1
+  rw [e'] at s2
+  rcases Nat.lt_trichotomy (s.gn n / s.Q) (s.gn n' / s.Q) with hlt | heq | hgt
+  · have := upSum_le s.P s.Q (s.rrank rank) (s.gn n / s.Q + 1) (s.gn n' / s.Q - (s.gn n / s.Q + 1)) (s.crank rank)
+    rw [Nat.add_sub_cancel' (by omega)] at this
+    exact (prefix_contra _ _ _ _ _ _ s1 o1 this hp').elim
+  · rw [heq] at e
+    have hn : s.gn n = s.gn n' := by omega
+    rw [heq] at hp'
+    have := same_res_div_inj s.P (s.gm m) (s.gm m') (hloc.1.trans hloc'.1.symm) (by omega)
+    unfold Sym.gm at this
+    unfold Sym.gn at hn
+    omega
+  · have := upSum_le s.P s.Q (s.rrank rank) (s.gn n' / s.Q + 1) (s.gn n / s.Q - (s.gn n' / s.Q + 1)) (s.crank rank)
+    rw [Nat.add_sub_cancel' (by omega)] at this
+    exact (prefix_contra _ _ _ _ _ _ s2 o2 this hp'.symm).elim
+
+/-- **symmetric, UPPER: slot in range** (the init counts the tiles row by row, `coord2pos` column by
+    column: both count the pairs (row ≡ rrank, column ≡ crank, row ≤ column < L)) -/
+theorem sym_upper_slot_in_range (s : Sym) (h : SymWF s) (hu : s.upper = true) (rank m n : Nat)
+    (hn : n < s.t.nt) (hst : s.stored m n) (hloc : symLocal s rank m n) :
+    ∃ p : Nat, s.position rank m n = some (p : Int) ∧ (p : Int) < s.nbLocal rank := by
+  refine ⟨_, sym_upper_position s h hu rank m n hloc, ?_⟩
+  have hgn : s.gn n < s.t.lmt := by rw [h.sq]; exact s.t.gn_lt h.t n hn
+  unfold Sym.stored at hst
+  rw [hu] at hst
+  simp only [if_true] at hst
+  have hrr : s.rrank rank < s.P := Nat.mod_lt _ h.P
+  have hcr : s.crank rank < s.Q := Nat.mod_lt _ h.Q
+  have hr_le : s.rrank rank ≤ s.gm m := by rw [← hloc.1]; exact Nat.mod_le _ _
+  unfold Sym.nbLocal
+  rw [hu]
+  simp only [if_true]
+  rw [← h.sq, upTotal_eq s.P s.Q (s.rrank rank) (s.crank rank) s.t.lmt h.P h.Q hcr (s.t.lmt + 1) (s.rrank rank)
+        (Nat.mod_eq_of_lt hrr) (by omega) (by omega)]
+  have w0 : W s.P s.Q (s.rrank rank) (s.crank rank) s.t.lmt (s.rrank rank) = 0 := by
+    unfold W; exact isum_zero _ _ _ hrr _ (Nat.le_refl _)
+  have b0 : Bs s.P s.Q (s.rrank rank) (s.crank rank) (s.crank rank) = 0 := by
+    unfold Bs; exact isum_zero _ _ _ hcr _ (Nat.le_refl _)
+  rw [w0, W_eq_Bs s.P s.Q _ _ h.P hrr h.Q hcr]
+  have e := col_of s.Q (s.gn n) (s.crank rank) hloc.2
+  have h1 := upSum_eq_Bs s.P s.Q (s.rrank rank) (s.crank rank) h.Q (s.gn n / s.Q) (s.crank rank) (Nat.mod_eq_of_lt hcr)
+  rw [e, b0] at h1
+  have h2 : Bs s.P s.Q (s.rrank rank) (s.crank rank) (s.gn n + 1)
+      = Bs s.P s.Q (s.rrank rank) (s.crank rank) (s.gn n) + cntBelow s.P (s.rrank rank) (s.gn n + 1) := by
+    unfold Bs; rw [isum, if_pos hloc.2]
+  have h3 := up_off_lt s.P (s.rrank rank) (s.gm m) (s.gn n) h.P hrr hloc.1 hst
+  have h4 := isum_mono s.Q (s.crank rank) (fun κ => cntBelow s.P (s.rrank rank) (κ + 1)) (s.gn n + 1) (s.t.lmt - (s.gn n + 1))
+  rw [Nat.add_sub_cancel' (by omega)] at h4
+  unfold Bs at h1 h2 ⊢
+  omega
+
 /-! ## non-vacuity: the hypotheses of the theorems are satisfiable on non-trivial configurations -/
 
 /-- 2×3 grid, k-cyclic 2×3, grid offset (1,2), 2×3 tiles, 10×13 matrix, window at (2,3) of size 7×9 -/
@@ -527,5 +786,31 @@ example : [0, 1, 2, 1, 1, 0][3]? = some 1 ∧ tabPos [0, 1, 2, 1, 1, 0] 1 3 = 1 
 def exVec : Vec := { mb := 2, lm := 13, i := 0, m := 13, P := 2, Q := 2, d := .diag }
 example : exVec.d = .diag ∧ exVec.rankOf 1 = exVec.rankOf 3 ∧ exVec.position 1 ≠ exVec.position 3 ∧
     (exVec.nbLocal 3).isSome ∧ exVec.rankOf 1 = 3 := by decide
+
+/-- the view of the header's example generalised: 3×2 grid, view factors (4,2), window at (4,2) of 13×9 elements, 2×2 tiles -/
+def exKV : KV :=
+  { o := { t := { mb := 2, nb := 2, lm := 19, ln := 11, i := 4, j := 2, m := 13, n := 9 },
+           g := { P := 3, Q := 2, kp := 1, kq := 1, ip := 2, jq := 1 }, lapack := false },
+    vp := 4, vq := 2 }
+theorem exKV_wf : KVWF exKV :=
+  ⟨⟨⟨by decide, by decide, by decide, by decide, by decide, by decide⟩,
+    ⟨by decide, by decide, by decide, by decide, by decide, by decide⟩⟩, by decide, by decide⟩
+-- the view really permutes the 7 rows (0 3 6 5 1 4 2: a single partial block of 12, row 3 needs the cycle walk: 3 ↦ 9 ↦ 5)
+example : exKV.o.t.mt = 7 ∧ exKV.sm 1 = some 3 ∧ exKV.sm 2 = some 6 ∧ exKV.sm 3 = some 5 ∧ exKV.sm 6 = some 2 ∧
+    exKV.sn 1 = some 2 ∧ kviewStep 3 4 3 = 9 := by decide
+
+/-- symmetric 9×9 tiles... (5×5 tile grid of 2×2 tiles), 2×3 process grid -/
+def exSymL : Sym := { t := { mb := 2, nb := 2, lm := 9, ln := 9, i := 0, j := 0, m := 9, n := 9 }, P := 2, Q := 3, upper := false }
+def exSymU : Sym := { t := { mb := 2, nb := 2, lm := 9, ln := 9, i := 2, j := 2, m := 6, n := 6 }, P := 3, Q := 2, upper := true }
+theorem exSymL_wf : SymWF exSymL :=
+  ⟨⟨by decide, by decide, by decide, by decide, by decide, by decide⟩, by decide, by decide, by decide⟩
+theorem exSymU_wf : SymWF exSymU :=
+  ⟨⟨by decide, by decide, by decide, by decide, by decide, by decide⟩, by decide, by decide, by decide⟩
+-- two different stored tiles local to rank 0 (lower), with different positions below nb_local_tiles = 4
+example : exSymL.stored 2 0 ∧ exSymL.stored 4 3 ∧ symLocal exSymL 0 2 0 ∧ symLocal exSymL 0 4 3 ∧
+    exSymL.position 0 2 0 = some 1 ∧ exSymL.position 0 4 3 = some 3 ∧ exSymL.nbLocal 0 = 4 ∧ exSymL.rankOf 4 3 = 0 := by decide
+-- upper, window starting at tile (1,1): rank 3 holds tiles (0,0) and (0,2) of the window
+example : 2 < exSymU.t.nt ∧ exSymU.stored 0 0 ∧ exSymU.stored 0 2 ∧ symLocal exSymU 3 0 0 ∧ symLocal exSymU 3 0 2 ∧
+    exSymU.position 3 0 0 ≠ exSymU.position 3 0 2 ∧ exSymU.rankOf 0 2 = 3 := by decide
 
 end ParsecVerif.C20
